@@ -209,7 +209,8 @@ def write_wkt(
         The path where the geometry should be written to.
     """
     with open(path, 'w') as f:
-        f.write(shapely.to_wkt(_to_multipolygon(dataset)))
+        f.write(shapely.to_wkt(
+            _to_multipolygon(dataset), rounding_precision=FULL_PRECISION))
 
 
 def write_wkb(
